@@ -1643,14 +1643,15 @@ def run(ctx):
         all_rules(fb, R)
         fbx = ctx.facts(['c12_extra'], cfg)
         registration_rules(fbx, R)
-    # instance floors = distinct (rule, key) pairs confirmed by reading the tree (see the keys in evidence/C12.json)
-    R.expect('G1-get-absent-throws', 16)            # 5 classes: not_found + per stored-value return its miss tests
-    R.expect('G2-get_noexcept-absent-empty', 28)    # 5 get_noexcept + FlexMem get_dense / get_sparse
-    R.expect('B1-dense-access-in-bounds', 6)        # dense get / get_noexcept / set, FlexMem assure_block / get_dense / set_dense outer index
+    # instance floors: confirmed by reading the tree (see the keys in evidence/C12.json); rules whose keys name private helpers (get_dense,
+    # get_sparse, assure_block ...) carry a floor below today's count so that inlining / extracting a helper is not reported as broken
+    R.expect('G1-get-absent-throws', 12)            # 5 classes: not_found + per stored-value return its miss tests
+    R.expect('G2-get_noexcept-absent-empty', 18)    # 5 get_noexcept + FlexMem get_dense / get_sparse
+    R.expect('B1-dense-access-in-bounds', 4)        # dense get / get_noexcept / set, FlexMem assure_block / get_dense / set_dense outer index
     R.expect('S1-search-key-prefix-of-sort-key', 2)  # VectorBasedSparseMap::find_id, FlexMem::get_sparse
     R.expect('S2-sort-override-sorts-searched-container', 2)
-    R.expect('F1-flexmem-block-offset-tiling', 6)
-    R.expect('F2-flexmem-switch-carries-all', 5)
+    R.expect('F1-flexmem-block-offset-tiling', 4)
+    R.expect('F2-flexmem-switch-carries-all', 4)
     R.expect('F3-flexmem-mode-dispatch', 2)
     R.expect('N1-way-sorts-before-lookup', 2)
     R.expect('N2-flag-cleared-only-after-sort', 1)
